@@ -370,8 +370,8 @@ func foreignSigOfSize(total int) []byte {
 	body := []byte{4, 0, 1, 8, byte(len(hashed) >> 8), byte(len(hashed))}
 	body = append(body, hashed...)
 	body = append(body, 0, 10, 9, 16, 1, 2, 3, 4, 5, 6, 7, 8) // unhashed: issuer
-	body = append(body, 0xAB, 0xCD)                          // left 16 bits of the hash
-	body = append(body, 0x08, 0x00)                          // MPI of 2048 bits
+	body = append(body, 0xAB, 0xCD)                           // left 16 bits of the hash
+	body = append(body, 0x08, 0x00)                           // MPI of 2048 bits
 	mpi := bytes.Repeat([]byte{0x5A}, 256)
 	mpi[0] = 0x9A
 	body = append(body, mpi...)
